@@ -280,6 +280,25 @@ func c06Build(c *choice.Stream) *c06Case {
 		col := DrawCols(c, "col", 1, 2)[0]
 		rows := 1 + gen.DrawRows(c, "rows")
 		vals := gen.Values(c.Sub("vals"), col.RT, rows)
+		if col.RT.Kind == refproto.KLowCard && c.Bool("lc.exact", 1, 3) {
+			// a dictionary that fills its key type, or misses doing so by one
+			d := c.Pick("lc.exact.n", 254, 255, 255, 256, 257, 65534, 65535, 65536)
+			pool := gen.Values(c.Sub("lc.exact.vals"), col.RT, 3*d)
+			seen := map[string]bool{}
+			var distinct []any
+			for _, v := range pool {
+				k := fmt.Sprintf("%#v", v)
+				if !seen[k] && len(distinct) < d {
+					seen[k] = true
+					distinct = append(distinct, v)
+				}
+			}
+			if len(distinct) == d {
+				vals = append(distinct, distinct[:c.Range("lc.exact.repeat", 0, 5)]...)
+				rows = len(vals)
+				cs.desc["lc_dictionary"] = d
+			}
+		}
 		var w refproto.W
 		refproto.EncodePrefix(&w, col.RT)
 		if err := refproto.EncodeData(&w, col.RT, vals); err != nil {
@@ -464,6 +483,19 @@ func runC06(t *testing.T, c *choice.Stream, r *Result, opt RunOpt) {
 		fields := cs.fields
 		if i > 0 {
 			fields = nil // offsets moved
+		}
+		if i == 0 && cs.desc["lc_dictionary"] != nil && len(fields) > 0 && c.Bool("lc.exact.keyfault", 2, 3) {
+			// one of the keys (the last fields of the column) set to the largest
+			// value of its width: one past a dictionary that just fails to fill it
+			f := fields[len(fields)-1-c.Draw("lc.exact.key", min(len(fields), 6))]
+			if f.Kind != "uvarint" && f.Off+f.Len <= len(data) {
+				data = append([]byte{}, data...)
+				for j := 0; j < f.Len; j++ {
+					data[f.Off+j] = 0xff
+				}
+				what = append(what, fmt.Sprintf("key %s@%d ->max", f.Kind, f.Off))
+				continue
+			}
 		}
 		data, d = c06Damage(c, data, fields, cs.valid)
 		what = append(what, d)
